@@ -632,7 +632,12 @@ def parse_instr(line, mod):
         elif k2 == "word" and callee in ("bitcast",):
             cal = p.parse_cexpr(callee, None)
         elif k2 == "word" and callee == "asm":
-            raise ParseError("inline asm")
+            while p.peek()[0] == "word":
+                p.next()          # sideeffect / alignstack / inteldialect
+            txt = p.next()[1]
+            p.expect(",")
+            cons = p.next()[1]
+            cal = Const("asm", None, (txt, cons))
         else:
             raise ParseError("callee %r" % (callee,))
         p.expect("(")
